@@ -38,7 +38,7 @@ type C06Scenario struct {
 var c06OpKinds = []string{
 	"append_next", "append_next", "append_next", "append_next", "append_gap", "append_fill", "sync",
 	"delete_prefix", "delete_prefix", "delete_suffix", "delete_whole", "restart_new", "restart_stopstart", "stop_during_sync",
-	"read", "read",
+	"read", "read", "append_empty",
 }
 
 func genC06(t *rapid.T) C06Scenario {
@@ -169,6 +169,11 @@ func c06RunHistory(s C06Scenario, e *storeEnv, res *Result, faults bool) (hist *
 			}
 			e.m.appendBatch(hs)
 			sinceSync = true
+		case "append_empty":
+			if err := e.st.Append(ctx); err != nil {
+				fail("%s: Append without headers failed: %v", tag, err)
+				return
+			}
 		case "read":
 			// read everything that is stored by height and by hash: fills the header and index caches
 			for _, h := range e.m.heights() {
